@@ -3,7 +3,6 @@ package sim
 import (
 	"bytes"
 	"encoding/base64"
-	"errors"
 	"fmt"
 	"io"
 	"io/fs"
@@ -39,7 +38,21 @@ type simFile struct {
 	content []byte
 	mode    int // 0 ok, 1 missing, 2 open error (EACCES), 3 read error after errAt bytes, 4 one-byte reads, 5 open error (EIO)
 	errAt   int
+	mtime   time.Time // modification time as Stat reports it (whole seconds, like most file systems the file is copied between)
 }
+
+type simFileInfo struct {
+	name  string
+	size  int64
+	mtime time.Time
+}
+
+func (i simFileInfo) Name() string       { return i.name }
+func (i simFileInfo) Size() int64        { return i.size }
+func (i simFileInfo) Mode() fs.FileMode  { return 0o600 }
+func (i simFileInfo) ModTime() time.Time { return i.mtime }
+func (i simFileInfo) IsDir() bool        { return false }
+func (i simFileInfo) Sys() any           { return nil }
 
 type simFS struct {
 	r     *Run
@@ -71,8 +84,10 @@ type simOpenFile struct {
 	off  int
 }
 
-func (o *simOpenFile) Stat() (fs.FileInfo, error) { return nil, errors.New("sim: stat not supported") }
-func (o *simOpenFile) Close() error               { return nil }
+func (o *simOpenFile) Stat() (fs.FileInfo, error) {
+	return simFileInfo{name: o.name, size: int64(len(o.sf.content)), mtime: o.sf.mtime}, nil
+}
+func (o *simOpenFile) Close() error { return nil }
 func (o *simOpenFile) Read(b []byte) (int, error) {
 	c := o.sf.content
 	limit := len(c)
@@ -307,7 +322,7 @@ func scLogin(r *Run) {
 				others = append(others, k.Public)
 			}
 		}
-		sf := &simFile{content: buildKeysFile(r, "file-"+u, valid, others)}
+		sf := &simFile{content: buildKeysFile(r, "file-"+u, valid, others), mtime: time.Now().Truncate(time.Second)}
 		switch r.Intn("file", 9) {
 		case 0:
 			sf.mode = 1
@@ -442,6 +457,69 @@ func scLogin(r *Run) {
 	}
 	wg.Wait()
 	time.Sleep(time.Second)
+	// the file is edited while the server runs: a listed key is replaced by another one (an entry of the same
+	// length, so the size does not change) and the modification time is preserved (cp -p, rsync -t), lands in
+	// the same second, or moves on.  From then on the removed key is not "in that user's file" any more.
+	for e := 0; e < r.Intn("edit", 3); e++ {
+		u := users[r.Intn("edit", len(users))]
+		sf := sfs.files[keysPath(u)]
+		if sf == nil || sf.mode != 0 {
+			continue
+		}
+		var old *keys.X25519KeyPair
+		for _, k := range userKeys[u] {
+			if allowedByFile(u, k.Public) && bytes.Contains(sf.content, []byte(keyLine(k.Public))) {
+				old = k
+			}
+		}
+		if old == nil {
+			continue
+		}
+		// the server has seen the file in its old state
+		if r.Intn("edit", 4) != 0 {
+			hs.AuthorizeKey(u, old.Public)
+		}
+		fresh := newX25519()
+		sfs.mu.Lock()
+		sf.content = bytes.ReplaceAll(sf.content, []byte(keyLine(old.Public)), []byte(keyLine(fresh.Public)))
+		switch r.Intn("edit", 3) {
+		case 0: // preserved
+		case 1:
+			sf.mtime = time.Now().Truncate(time.Second)
+		default:
+			sf.mtime = time.Now().Add(time.Duration(1+r.Intn("edit", 100)) * time.Second).Truncate(time.Second)
+		}
+		sfs.mu.Unlock()
+		r.CountFault("fs/file-edited-key-replaced", 1)
+		if r.Intn("edit", 3) == 0 {
+			time.Sleep(time.Duration(r.Intn("edit", 3000)) * time.Millisecond)
+		}
+		r.Obligation(1)
+		if allowedByFile(u, old.Public) {
+			continue // (the key also appears in another form; nothing to judge)
+		}
+		gmu.Lock()
+		covered := grants[gkey(u, old.Public)] > 0
+		gmu.Unlock()
+		if covered {
+			continue
+		}
+		if err := hs.AuthorizeKey(u, old.Public); err == nil {
+			r.Violate("C05/authorizekey-accepts-removed-key", "AuthorizeKey(%q) returned nil for a key whose entry was replaced in the stored file (now: %s)", u, describeFile(sf))
+		}
+		if r.Intn("edit", 2) == 0 {
+			lc, ok, err := dialLogin(r, n, ts, byte(60+e), old, u)
+			if lc != nil {
+				lc.close(r)
+			}
+			if err == nil && ok {
+				r.Violate("C05/login-with-removed-key", "server confirmed login as %q for a key whose entry had been replaced in the stored authorized-keys file (now: %s)", u, describeFile(sf))
+			}
+		}
+		if err := hs.AuthorizeKey(u, fresh.Public); err != nil {
+			r.Probe("edited-in-key-refused")
+		}
+	}
 	// conservation of grants under concurrent additions and consumptions through the two
 	// entry points: every added grant is handed out at most once, none is lost
 	if enableGrants {
